@@ -597,8 +597,12 @@ def gen_c20(rng, tier):
         elif z < 0.55:
             import props as P
             base = P.g_c13(rng, tier); base["label"] = "int"
-        else:
+        elif z < 0.8:
             base = gen.gen_ctx_case(rng, max_ops=6, warm=True, label="int")
+        else:
+            # stored-history policies with many partial fits: labels first seen after the first batch
+            base = gen.gen_ctx_case(rng, nps=["radius", "knearest", "lsh"], max_ops=9, fit_prob=0.02, label="int")
+            return {"kind": kind, "base": base, "style2": rng.choice(["str", "str", "float", "negint"])}
         if rng.random() < 0.5 and 0 not in base["arms"] and not any(o[0] == "add" and o[1] == 0 for o in base["ops"]):
             base = remap_arm(base, rng.choice(base["arms"]), 0)     # the falsy label 0
         return {"kind": kind, "base": base, "style2": rng.choice(["str", "float", "negint"])}
@@ -899,6 +903,8 @@ def gen_c11(rng, tier):
                             queries=False, max_rows=40)
     if kind == "greedy":
         base["lp"] = ("greedy", 0.0)
+    if rng.random() < 0.4:
+        base["int_ctx"] = True      # integer-typed history, fractional queries (the scaled queries below)
     return {"base": base, "seed2": rng.randint(0, 10**9)}
 
 def sign_patterns(X, planes):
@@ -921,7 +927,7 @@ def run_c11(t):
         if z < 0.35:
             queries.append(("stored", list(X[rng.randrange(len(X))])))
         elif z < 0.7:
-            c = rng.choice([2.0, 0.5, 3.0, 2.0 ** -40, 1e-12, 2.0 ** 30, 1e-9])
+            c = rng.choice([2.0, 0.5, 3.0, 2.0 ** -40, 1e-12, 2.0 ** 30, 1e-9, 0.25, 1.5])
             queries.append(("scaled", [c * v for v in X[rng.randrange(len(X))]], c))
         elif z < 0.8:
             queries.append(("zero", [0.0] * d))
@@ -962,7 +968,38 @@ def run_c11(t):
     return True, {}
 
 # ------------------------------------------------------------------ C12
+def gen_tree_single_leaf(rng):
+    """TreeBandit: an arm whose first observations give a single-leaf tree (one row, or all-equal rewards), then a
+    partial_fit with several rows of that arm that differ in rewards and contexts: the first rewards stay filed under
+    the leaf every context falls into (the tree is fitted once)"""
+    kind = rng.choice(["greedy", "ucb"])
+    d = rng.randint(1, 3)
+    arms = rng.sample(range(0, 9), rng.randint(2, 3))
+    a = arms[0]; others = arms[1:]
+    draw = gen.reward_stream(rng, rng.choice(["dyadic", "smallint"]))
+    n_other = rng.randint(3, 8)
+    ds = [rng.choice(others) for _ in range(n_other)]; rs = [draw() for _ in range(n_other)]; cx = gen.gen_ctx(rng, n_other, d, 0, 4)
+    ops = []
+    first = rng.choice(["one_row_fit", "equal_rewards_fit", "add_then_one_row"])
+    if first == "one_row_fit":
+        k = rng.randrange(n_other + 1); ds.insert(k, a); rs.insert(k, draw()); cx.insert(k, gen.gen_ctx(rng, 1, d, 0, 4)[0])
+        ops.append(("fit", ds, rs, cx))
+    elif first == "equal_rewards_fit":
+        v = draw(); m = rng.randint(2, 4)
+        ops.append(("fit", ds + [a] * m, rs + [v] * m, cx + gen.gen_ctx(rng, m, d, 0, 4)))
+    else:
+        arms = others; ops.append(("fit", ds, rs, cx)); ops.append(("add", a, None))
+        ops.append(("pfit", [a], [draw()], gen.gen_ctx(rng, 1, d, 0, 4)))
+    m = rng.randint(3, 7)
+    ops.append(("pfit", [a] * m + [rng.choice(others)], [float(i) * 2 - 3 for i in range(m)] + [draw()],
+                [[float((i + j) % 5) for j in range(d)] for i in range(m)] + gen.gen_ctx(rng, 1, d, 0, 4)))
+    lp = ("greedy", 0.0) if kind == "greedy" else ("ucb", gen.gen_hp(rng, "ucb"))
+    return {"arms": arms, "lp": lp, "np": ("tree", {}, (True, True)), "seed": rng.randint(0, 2**31 - 2), "ops": ops,
+            "label": rng.choice(["int", "str", "float"]), "mode": "exact", "reward_style": "dyadic"}
+
 def gen_c12(rng, tier):
+    if rng.random() < 0.15:
+        return {"base": gen_tree_single_leaf(rng), "seed2": rng.randint(0, 10**9)}
     kind = rng.choice(["greedy", "ucb"])
     base = gen.gen_ctx_case(rng, nps=["clusters", "tree"], lps=[kind], max_ops=5, reward_styles=["dyadic", "smallint", "binary"],
                             queries=False, max_rows=30)
@@ -1321,7 +1358,7 @@ def to_container(vals, kind, is_matrix=False, integral=False):
     if kind == "np_f":
         return np.asfortranarray(a) if is_matrix else a.copy()
     if kind == "np_int":
-        return a.astype(np.int64) if integral and a.dtype.kind == "f" else a.copy()
+        return a.astype(np.int64) if integral and a.dtype.kind == "f" and np.all(a == np.round(a)) else a.copy()
     if kind == "series":
         if is_matrix:
             if a.shape[1] == 1 and a.shape[0] > 1:
@@ -1351,6 +1388,12 @@ def gen_c18(rng, tier):
                                 force_dim=rng.choice([None, None, 1]))
     if base["lp"][0] == "thompson" and base["lp"][1] is None and rng.random() < 0.5:
         base["lp"] = ("thompson", ("gt", 0.0))
+    if base.get("np") is not None and base["np"][0] != "lsh" and rng.random() < 0.35:
+        # real-valued (non-integral, non-dyadic) contexts: in-place arithmetic on the caller's array would not round-trip
+        base.pop("int_ctx", None)
+        jit = lambda cx: [[v + rng.uniform(-0.4, 0.4) * 1.1 for v in row] for row in cx]
+        base["ops"] = [((o[0], o[1], o[2], jit(o[3])) if o[0] in ("fit", "pfit") and o[3] is not None else
+                        ((o[0], jit(o[1])) if o[0] in ("pred", "pexp") and o[1] is not None else o)) for o in base["ops"]]
     return {"base": base, "kind": rng.choice(CONTAINERS[1:])}
 
 def run_c18(t):
@@ -1596,8 +1639,10 @@ def run_c16(t):
             if not hist:
                 return None
             dd = cdist(cxa[hist], cxa[ti[i]][np.newaxis, :], metric=npol[2]).reshape(-1)
-            # rows at (numerically) exactly the radius are ambiguous: leave them to the library comparison (C15)
-            if np.any(np.abs(dd - npol[1]) <= 1e-9 * max(1.0, abs(npol[1]))):
+            # a row EXACTLY at the radius is a neighbour (closed ball); rows within rounding distance of it, but not on it,
+            # are numerically ambiguous and are left to the library comparison (C15)
+            gap = np.abs(dd - npol[1])
+            if np.any((gap > 0) & (gap <= 1e-9 * max(1.0, abs(npol[1])))):
                 return None
             sel = [h for h, x in zip(hist, dd) if x <= npol[1]]
             mine = [rs[h] for h in sel if ds[h] == p]
